@@ -459,7 +459,20 @@ func (g *TxGen) mkRegisterNode() *GenTx {
 		}
 		return gt
 	case mode == 13:
-		// Re-register a node under another entity (one that lists it, if any does).
+		// Re-register a node under another entity (one that lists it, if any does; otherwise make
+		// another entity list it first). Expired nodes that are still registered are preferred:
+		// fewer update restrictions apply to them.
+		if g.rng.IntN(4) != 0 {
+			var exp []*SimNode
+			for _, c := range nodes {
+				if cur := g.view().Nodes[c.Keys.ID.PK]; cur != nil && uint64(cur.Expiration) < g.view().Epoch {
+					exp = append(exp, c)
+				}
+			}
+			if len(exp) > 0 {
+				n = exp[g.rng.IntN(len(exp))]
+			}
+		}
 		old := n.Entity
 		var cands, listing []*SimEntity
 		for _, e := range g.h.Sc.Entities {
@@ -481,6 +494,14 @@ func (g *TxGen) mkRegisterNode() *GenTx {
 		o := cands[g.rng.IntN(len(cands))]
 		if len(listing) > 0 {
 			o = listing[g.rng.IntN(len(listing))]
+		} else if g.view().Entities[o.PK] != nil && g.rng.IntN(3) != 0 {
+			ed := EntityDescriptor(o, append(append([]*SimNode(nil), o.Nodes...), n))
+			se, err := entity.SignEntity(o.Signer, registry.RegisterEntitySignatureContext, ed)
+			if err != nil {
+				panic(err)
+			}
+			tx := registry.NewRegisterEntityTx(g.nonce(o.Account), g.feeSure(2000+1000*uint64(len(ed.Nodes))), se)
+			return g.finish(o.Account, tx, o.Name+" lists foreign node "+n.Name)
 		}
 		n.Entity = o
 		nd := NodeDescriptor(n, beacon.EpochTime(g.view().Epoch+2))
